@@ -18,6 +18,7 @@ package main
 import (
 	"fmt"
 	"io"
+	"os"
 	"runtime/debug"
 	"sort"
 	"strconv"
@@ -204,7 +205,7 @@ func actionOK(a string) bool {
 		return hexOK(arg)
 	case 's':
 		kv := strings.Split(arg, "=")
-		return len(kv) == 2 && hexOK(kv[0]) && hexOK(kv[1])
+		return len(kv) == 2 && hexOK(kv[0]) && (kv[1] == "-" || hexOK(kv[1]))
 	case 'T':
 		n, err := strconv.Atoi(arg)
 		return err == nil && n >= -5 && n <= 100000
@@ -272,12 +273,23 @@ func newWorld(c cfgIn) (w *world, panicked bool) {
 	default:
 		panic("bad source")
 	}
-	if c.storage == "inj" {
+	switch strings.TrimSuffix(c.storage, "N") {
+	case "inj":
 		conf.Storage = newMapStorage()
-	} else if c.storage != "mem" {
+	case "mem":
+	default:
 		panic("bad storage")
 	}
-	mw, store := session.NewWithStore(conf)
+	var mw fiber.Handler
+	var store *session.Store
+	if strings.HasSuffix(c.storage, "N") {
+		// the other construction path: an explicit Store handed to session.New
+		store = session.NewStore(conf)
+		conf.Store = store
+		mw = session.New(conf)
+	} else {
+		mw, store = session.NewWithStore(conf)
+	}
 	w.store = store
 	ks, ok := store.Storage.(keyser)
 	if !ok {
@@ -578,7 +590,7 @@ func runCase(c cfgIn, ops []op) string {
 
 // close stops the built-in memory storage's GC goroutine (one per store otherwise leaks).
 func (w *world) close() {
-	if w.cfg.storage == "mem" {
+	if strings.HasPrefix(w.cfg.storage, "mem") {
 		_ = w.store.Storage.Close()
 	}
 }
@@ -614,7 +626,7 @@ func replay(wr *gen.Writer, file string) {
 				return
 			}
 			c := cfgIn{source: f[1], storage: f[2], idle: idle, abs: abs}
-			if (c.source != "cookie" && c.source != "header" && c.source != "query") || (c.storage != "mem" && c.storage != "inj") {
+			if (c.source != "cookie" && c.source != "header" && c.source != "query") || (c.storage != "mem" && c.storage != "inj" && c.storage != "memN" && c.storage != "injN") {
 				wr.Count("replay-skipped")
 				return
 			}
@@ -663,7 +675,14 @@ func main() {
 		var c cfgIn
 		var ops []op
 		var obs string
-		if r.Chance(1, 4) {
+		sched := r.Chance(1, 4)
+		switch os.Getenv("C15_MODE") { // self-test knob: only schedules / only sequential histories
+		case "sched":
+			sched = true
+		case "seq":
+			sched = false
+		}
+		if sched {
 			c, ops, obs = genSchedule(r, wr)
 		} else {
 			c, ops, obs = genCase(r, wr)
